@@ -6,6 +6,7 @@ import (
 	"fmt"
 	"net/http"
 	"net/http/httptest"
+	"runtime"
 	"sort"
 	"strings"
 	"sync"
@@ -56,7 +57,7 @@ func genC05(t *rapid.T) C05Case {
 			op.Other = rapid.IntRange(0, c.NSess-1).Draw(t, "pairother")
 			op.Answer = rapid.SampledFrom([]string{"first-first", "second-first"}).Draw(t, "pairorder")
 		case "roots":
-			op.Answer = rapid.SampledFrom([]string{"own", "own", "own-error", "foreign", "foreign-error", "cancel", "precancel"}).Draw(t, "answer")
+			op.Answer = rapid.SampledFrom([]string{"own", "own", "own-error", "foreign", "foreign-error", "cancel", "precancel", "cancel-and-answer", "cancel-and-answer"}).Draw(t, "answer")
 			op.Other = rapid.IntRange(0, c.NSess-1).Draw(t, "other")
 			if (op.Answer == "foreign" || op.Answer == "foreign-error") && (op.Other == op.Sess || c.Kind == 2) {
 				op.Answer = "own"
@@ -617,6 +618,21 @@ func (cw *c05World) roots(op C05Op, s *refSess, nonce, where string) *Failure {
 		if cf, ok := cw.cancels.Load(nonce); ok {
 			cf.(context.CancelFunc)()
 		}
+	case "cancel-and-answer":
+		// the answer arrives at the moment the request is given up: whichever wins, the request is over afterwards
+		var rw sync.WaitGroup
+		rw.Add(2)
+		go func() {
+			defer rw.Done()
+			if cf, ok := cw.cancels.Load(nonce); ok {
+				if len(nonce)%2 == 0 {
+					runtime.Gosched()
+				}
+				cf.(context.CancelFunc)()
+			}
+		}()
+		go func() { defer rw.Done(); answer(s, "raced-"+nonce) }()
+		rw.Wait()
 	default:
 		answer(s, fmt.Sprintf("own-%d", op.Sess))
 	}
@@ -673,6 +689,10 @@ func (cw *c05World) roots(op C05Op, s *refSess, nonce, where string) *Failure {
 			return Failf("C05/cancel-result", "%s: a roots/list issued under a context that was already cancelled returned %q", where, text)
 		}
 		cw.staleRequests(s)
+	case "cancel-and-answer":
+		if text != "roots:file:///raced-"+nonce && !(strings.HasPrefix(text, "err:") && strings.Contains(text, "context canceled")) {
+			return Failf("C05/cancel-result", "%s: a roots/list that was cancelled while its answer (raced-%s) arrived returned %q", where, nonce, text)
+		}
 	case "cancel":
 		if !strings.HasPrefix(text, "err:") || !strings.Contains(text, "context canceled") {
 			return Failf("C05/cancel-result", "%s: a cancelled roots/list returned %q", where, text)
